@@ -283,7 +283,7 @@ func main() {
 	// an inconclusive run (solver unknown, untranslatable operation, engine limit or error): run the harness
 	// natively on structured special inputs; a failure of its end-to-end assertions is a replayed violation
 	nativeFallback := func(r *ObRun) {
-		if *noReplay || r.UsedGhost || nativeFallbacks[r.Dir.Func] >= 2 || len(violations) > 0 {
+		if *noReplay || (r.UsedGhost && r.attr("native", "") == "") || nativeFallbacks[r.Dir.Func] >= 2 || len(violations) > 0 {
 			return
 		}
 		nativeFallbacks[r.Dir.Func]++
